@@ -6,8 +6,9 @@ PROPS_V = "theories/C16/Props.v"
 EXTRACT = "extract/C16.v"
 DESIGN_REF = "DESIGN.md section 5, C16"
 TECHNIQUE = ("Coq proof about a hand-written model of Decimal.String / SetString / sanity (digit strings as code-point lists, "
-             "positional-notation library) against an independent numeral/value/shape specification + "
-             "model-vs-implementation correspondence on generated (precision, scale, value) triples and texts")
+             "positional-notation library) and of ONE Decimal object as a state machine (precision, scale, integer | nil) under histories of "
+             "method calls and direct field assignments, against an independent numeral/value/shape specification + "
+             "model-vs-implementation correspondence on generated (precision, scale, value) triples, texts and multi-step histories")
 RULE = ("fn 1 (String): all 741 (precision, scale) pairs with 0 <= scale <= precision <= 38, 1 <= precision, plus precision 0, times the "
         "boundary integers {0, +-1, +-10^k, +-(10^k - 1) for every k <= precision, 10^k + 1 at k in {0, 1, p-1, p-s} (every k thorough)} "
         "exhaustively, random integers of every digit length 1..precision (12 per length thorough), multiples of powers of ten (zeros around the "
@@ -19,16 +20,27 @@ RULE = ("fn 1 (String): all 741 (precision, scale) pairs with 0 <= scale <= prec
         "code points, look-alikes that are not), '+', several points, inserted junk, sign or junk in the fraction, too many digits, too many "
         "fraction digits, random strings over '0-9.+- e', random digit strings of length 0..p+2, misplaced signs, limits. "
         "fn 3 (NewDecimal): every (precision, scale) in -2..40 squared and six far-away pairs. "
+        "fn 5 (histories of 2..6 operations on ONE object; after EVERY operation Precision, Scale, Int() are read back, a copy of the struct is "
+        "printed and the text is parsed back and Cmp'ed): operations String, SetString, SetInt64, SetBytes, Negate, Precision = p, Scale = s, both, "
+        "read accessors (IsNegative, Int, Bytes, ByteSize, Cmp with a fresh decimal in the same state); every word of length 2 and 3 over a "
+        "9-operation alphabet from 6 starting points (NewDecimal(18,0), (5,2), (38,19), (0,0), a struct literal without integer, and one whose "
+        "assignments leave the valid range), length 4 from the first (from all six thorough); the call-site flows 'set value, [format|read], "
+        "assign Precision/Scale, format' into every (precision, scale) pair; 2 (40 thorough) random histories per pair whose values and texts are "
+        "drawn for the precision/scale the object has at that moment, with occasional out-of-range assignments (precision up to 41, scale -1..40). "
         "Non-trivial = everything except fn 3 (each fn 3 case is a distinct point of the construction domain and is counted too); distinct by (fn, input).")
 TRUSTED = ["Coq 8.16.1 kernel + vm_compute (no native_compute)",
            "hand-written model coq/theories/C16/Model.v of asetypes/decimal.go (tied by this correspondence check)",
            "math/big (Int.String, Int.SetString base 10, Abs, Exp, Mul, SetBytes, Neg, Bytes), fmt (%0<w>s of a *big.Int through big.Int.Format, %s) and "
            "strings (TrimSpace, Split, TrimLeft, TrimRight) are MODELLED by Coq definitions, not verified; the correspondence run cross-checks them",
-           "harness/cmd/c16 (public API only: NewDecimal, SetBytes, Negate, String, Int, Cmp, NewDecimalString, SetString), ocaml/driver.ml, "
+           "harness/cmd/c16 (public API only: NewDecimal, struct literal, exported fields Precision/Scale, SetBytes, SetInt64, Negate, String, Int, Bytes, "
+           "ByteSize, IsNegative, Cmp, NewDecimalString, SetString), ocaml/driver.ml, "
            "extraction with ExtrOcamlBasic only"]
 ASSUMPTIONS = ["texts are valid UTF-8 and are modelled as lists of code points (len(right) is only used after right is known to consist of ASCII digits)",
                "errors are observed as error / no error (the message is not compared)",
-               "a Decimal is only built through NewDecimal (dec.i is never nil; Precision/Scale are not modified after construction)",
+               "a Decimal is built through NewDecimal or as a struct literal (dec.i nil: prints '<nil>', outside the property) and its exported fields "
+               "may be assigned at any time; assigned precisions are >= 0 (a negative precision would turn the fmt width into a flag; not modelled)",
+               "the state of a Decimal is (Precision, Scale, integer): the theorems about histories are theorems about this model; that the Go object "
+               "has no further state influencing String is exactly what the fn 5 correspondence run tests (copies of the struct share the *big.Int)",
                "the quantifier of the round-trip/shape/value theorems is |i| < 10^precision; longer values (reachable through SetBytes/SetInt64) print a "
                "text with another value and are outside the property (model equality is still checked for them)",
                "precision 0 is legal (NewDecimal(0,0)) and holds only 0; the theorems are stated for precision >= 1 and precision 0 is checked by computation"]
@@ -38,7 +50,11 @@ LEVEL_TEXT = ("Machine-checked theorems for ALL precisions >= 1, scales 0..preci
               "specification admits (C16_parse_all): junk is an error (C16_parse_junk, C16_two_points), unrepresentable numerals are errors "
               "(C16_parse_unrepresentable, C16_written_toofrac), proper representable numerals yield exactly numeral*10^scale (C16_parse_exact, "
               "C16_written_point, C16_written_int), nothing is accepted with another value (C16_parse_sound, C16_repr_iff); NewDecimal accepts exactly "
-              "0 <= scale <= precision <= 38 (C16_sanity). The model is compared with the Go code on ~200k cases per quick run.")
+              "0 <= scale <= precision <= 38 (C16_sanity). For ALL histories of calls and field assignments on one object, from any state: what is read back and "
+              "printed after every step is the current state and its text (C16_history_trace), and in every state inside the property that text is the "
+              "exact expansion of the CURRENT integer / 10^scale and parses back (C16_history_text); formatting and reading change nothing "
+              "(C16_history_readonly); the step-by-step specification predicate accepts the model's trace (C16_history_spec_of_model). "
+              "The model is compared with the Go code on ~220k cases per quick run (15k of them histories).")
 LEVEL_NOTE = ("Trusted: Coq kernel, the hand-written model incl. its rendering of math/big, fmt and strings (validated by correspondence), the Go harness, "
               "extraction and the OCaml driver. No axioms. Numerals without integer digits ('.5') may be accepted with their exact value or rejected "
               "(the code rejects '.0' but accepts '.5'); the specification allows both, never another value.")
